@@ -152,3 +152,7 @@ package peer
 //@ lemma id-injective: forall a bytes, b bytes :: len(pubKeyPB(a)) <= 9223372036854775807 && len(pubKeyPB(b)) <= 9223372036854775807 && mhEnc(0, pubKeyPB(a)) == mhEnc(0, pubKeyPB(b)) ==> a == b
 // and the text form round-trips
 //@ lemma id-text-roundtrip: forall i bytes :: len(i) > 0 ==> b58ok(b58enc(i)) && b58dec(b58enc(i)) == i
+
+//@ func NewSignedMsg
+//@   noframe
+//@   ensures ret1 == nil ==> ret0 != nil
